@@ -678,5 +678,6 @@ func main() {
 	lengthSweep(r.Fork(), lens, sum)
 	edgeStream(r.Fork(), sum)
 	jsonOptStream(r.Fork(), *big, sum)
+	scratchStream(r.Fork(), sum)
 	sum.Print()
 }
